@@ -19,7 +19,7 @@
 (***************************************************************************)
 EXTENDS Naturals, Sequences, FiniteSets, TLC
 
-CONSTANTS MaxTests, MaxOps, Family     \* Family: "all" | "interplay" (operations whose restore order / option context matters) | "persist"
+CONSTANTS MaxTests, MaxOps, Family     \* Family: "all" | "interplay" (operations whose restore order / option context matters) | "persist" | "script"
 
 VarNames == {"v1", "BASH_MYVAR"}    \* an ordinary name, and a user variable whose name starts like bash-owned ones
 Values   == {"plain", "spaces", "squote", "dquote", "newline", "utf8", "empty", "glob_chars", "dollar"}
@@ -98,7 +98,14 @@ Representative(o) == \/ o.op \in {"setvar", "setexported", "cfgenv"} /\ o.a = "v
                      \/ o.op \in {"cd", "pushd"} /\ o.a = "sub1"
                      \/ o.op = "setopt" /\ (o.b = "off" \/ o.a = "pipefail")
                      \/ o.op = "shopt" /\ (o.b = "off" \/ o.a = "nullglob")
+\* family "script": the document is run by the single-script executor (Cram documents, --cram-compat): ONE process for all
+\* test cases, nothing is restored or dumped; a configured variable is exported once, at the start of the script
+ScriptExec == Family = "script"
 OpsFor(st) == CASE Family = "interplay" -> {o \in OpsOn(st) : Interplay(o)}
+                [] Family = "script" -> (CASE Len(hist) = 0 -> {o \in OpsOn(st) : (o.op \in {"setopt", "shopt"} /\ o.b = "on") \/ (o.op = "cfgenv" /\ o.a = "v1")}
+                                           [] Len(hist) = 1 -> {o \in OpsOn(st) : (Representative(o) /\ o.op # "cfgenv") \/ (o.a = "v1" /\ o.op \in {"unsetvar", "unexport"})
+                                                                                \/ (o.op = "setexported" /\ o.a = "v1" /\ o.c = "spaces")}
+                                           [] OTHER -> {})
                 [] Family = "persist" -> (CASE Len(hist) = 0 -> {o \in OpsOn(st) : o.op \in {"setopt", "shopt"} /\ o.b = "on"}
                                             [] Len(hist) = 1 -> {o \in OpsOn(st) : Representative(o)}
                                             [] OTHER -> {})
@@ -109,8 +116,8 @@ Init == /\ hist = <<>> /\ sess = InitState /\ file = InitState /\ proc = InitSta
 
 \* a new test case starts: a new process restores the state file (template: `source state`)
 Start == /\ pc = "idle" /\ Len(hist) < MaxTests
-         /\ \E det \in BOOLEAN : cur' = [ops |-> <<>>, detached |-> det]
-         /\ proc' = file                                              \* Restore (no file yet = initial state)
+         /\ \E det \in (IF ScriptExec THEN {FALSE} ELSE BOOLEAN) : cur' = [ops |-> <<>>, detached |-> det]
+         /\ proc' = (IF ScriptExec /\ Len(hist) > 0 THEN proc ELSE file)   \* Restore (no file yet = initial state); one script: it just goes on
          /\ pc' = "run"
          /\ UNCHANGED <<hist, sess, file, obs, ref>>
 \* the shell expression runs: one state-changing operation at a time
